@@ -14,8 +14,9 @@ package channelappend_test
 // Method A (spec -> code): every behaviour TLC printed from Sim.tla is replayed with the fakes in
 // GATED mode: each AppendBatch / EnqueuePersistAfter call parks until the driver answers it the
 // way the behaviour says; after every step the observable state (item results, the log, finished
-// effects, Stop returns) is compared with the specification's.  A library of hand-written
-// schedules (scenarios) is replayed the same way.
+// effects, Stop returns) is compared with the specification's.  The scripted scenarios of Sim.tla
+// (caller commands only; every reply and observation is computed by TLC, sim stage "scen", read
+// from VERIF_BEH_DIR/beh_scen.jsonl) are replayed first, then the seeded random schedules.
 //
 // Method B (code -> spec): a seeded driver runs several goroutines of SubmitLocal / Router.SendBatch
 // traffic over several channels (retries with the same and with a changed payload, duplicates
